@@ -1,6 +1,14 @@
 package verifh
 
-import "github.com/tink-crypto/tink-go/v2/internal/verifrt"
+import (
+	"bytes"
+	"io"
+
+	"github.com/tink-crypto/tink-go/v2/insecuresecretdataaccess"
+	"github.com/tink-crypto/tink-go/v2/internal/verifrt"
+	"github.com/tink-crypto/tink-go/v2/key"
+	"github.com/tink-crypto/tink-go/v2/secretdata"
+)
 
 // Buf returns a caller-owned buffer of length n embedded in a larger array: `spare`
 // further bytes of capacity follow it. All of it (including the spare capacity) is
@@ -54,4 +62,370 @@ func CheckMACNoWrite(m MAC) {
 	verifrt.Assert(m.VerifyMAC(tbuf, data) == nil, "VerifyMAC accepts")
 	verifrt.CheckProtected()
 	verifrt.Reach("nowrite-ok")
+}
+
+// ---------------------------------------------------------------------------------------
+// Further primitive classes (C19).
+
+// Unprotect lifts the write monitor from a caller buffer (after checking it once more), so
+// that the harness itself -- playing the caller who reuses its buffer after the call -- may
+// overwrite it.
+func Unprotect(b []byte) {
+	verifrt.CheckProtected()
+	verifrt.Unprotect(b)
+}
+
+// Scribble overwrites the whole capacity of a caller buffer with other values (the caller
+// reuses its buffer after the call). Every byte changes.
+func Scribble(b []byte) {
+	full := b[:cap(b)]
+	for i := range full {
+		full[i] ^= 0xA5
+	}
+}
+
+// PRF is tink's prf.PRF.
+type PRF interface {
+	ComputePRF(input []byte, outputLength uint32) ([]byte, error)
+}
+
+// CheckPRFNoWrite: ComputePRF never writes into the input buffer (nor its spare capacity);
+// the output shares no memory with the input nor with any of the given internal slices of
+// the primitive (key, salt, ...); overwriting the caller's input or the returned output
+// afterwards does not change what the primitive computes later.
+func CheckPRFNoWrite(p PRF, maxIn, outLen int, internals ...[]byte) {
+	in := Buf("in", verifrt.Choice("n", maxIn+1), "caller PRF input buffer")
+	in0 := append([]byte{}, in...)
+	out, err := p.ComputePRF(in, uint32(outLen))
+	verifrt.Assert(err == nil && len(out) == outLen, "ComputePRF succeeds")
+	verifrt.CheckProtected()
+	verifrt.Assert(!verifrt.SameArray(out, in), "output shares no memory with the input")
+	for _, s := range internals {
+		verifrt.Assert(!verifrt.SameArray(out, s), "output shares no memory with the primitive's key material")
+	}
+	out0 := append([]byte{}, out...)
+	// the caller reuses both its input buffer and the returned slice (including whatever
+	// spare capacity the returned slice has)
+	Unprotect(in)
+	Scribble(in)
+	Scribble(out)
+	out2, err := p.ComputePRF(in0, uint32(outLen))
+	verifrt.Assert(err == nil, "second ComputePRF succeeds")
+	verifrt.AssertEq(out2, out0, "overwriting the input buffer and the returned output does not change later results")
+	verifrt.Assert(!verifrt.SameArray(out2, out), "every call returns fresh memory")
+	verifrt.Reach("nowrite-ok")
+}
+
+// DAEAD is tink.DeterministicAEAD.
+type DAEAD interface {
+	EncryptDeterministically(plaintext, associatedData []byte) ([]byte, error)
+	DecryptDeterministically(ciphertext, associatedData []byte) ([]byte, error)
+}
+
+// CheckDAEADNoWrite: as CheckAEADNoWrite for deterministic AEADs, plus: overwriting the
+// caller's buffers and the returned slices afterwards does not change later results.
+func CheckDAEADNoWrite(d DAEAD, maxPT int, internals ...[]byte) {
+	pt := Buf("pt", verifrt.Choice("n", maxPT+1), "caller plaintext buffer")
+	ad := Buf("ad", verifrt.Choice("m", 2), "caller associated-data buffer")
+	pt0, ad0 := append([]byte{}, pt...), append([]byte{}, ad...)
+	ct, err := d.EncryptDeterministically(pt, ad)
+	verifrt.Assert(err == nil, "EncryptDeterministically succeeds")
+	verifrt.CheckProtected()
+	verifrt.Assert(!verifrt.SameArray(ct, pt) && !verifrt.SameArray(ct, ad), "ciphertext shares no memory with the inputs")
+	for _, s := range internals {
+		verifrt.Assert(!verifrt.SameArray(ct, s), "ciphertext shares no memory with the primitive's internals")
+	}
+	ct0 := append([]byte{}, ct...)
+	// decrypt from a caller buffer with spare capacity
+	spare := verifrt.Choice("ct.spare", 3)
+	cbuf := make([]byte, len(ct), len(ct)+spare)
+	copy(cbuf, ct)
+	verifrt.Protect(cbuf, "caller ciphertext buffer")
+	got, err := d.DecryptDeterministically(cbuf, ad)
+	verifrt.Assert(err == nil, "DecryptDeterministically succeeds")
+	verifrt.CheckProtected()
+	verifrt.Assert(!verifrt.SameArray(got, cbuf) && !verifrt.SameArray(got, ad), "plaintext shares no memory with the inputs")
+	for _, s := range internals {
+		verifrt.Assert(!verifrt.SameArray(got, s), "plaintext shares no memory with the primitive's internals")
+	}
+	verifrt.AssertEq(got, pt0, "round trip")
+	// the caller reuses all its buffers and the returned slices
+	Unprotect(pt)
+	verifrt.Unprotect(ad)
+	verifrt.Unprotect(cbuf)
+	Scribble(pt)
+	Scribble(ad)
+	Scribble(cbuf)
+	Scribble(ct)
+	Scribble(got)
+	ct2, err := d.EncryptDeterministically(pt0, ad0)
+	verifrt.Assert(err == nil, "second encryption succeeds")
+	verifrt.AssertEq(ct2, ct0, "overwriting inputs and returned slices does not change later ciphertexts")
+	verifrt.Reach("nowrite-ok")
+}
+
+// Signer / Verifier are tink.Signer / tink.Verifier.
+type Signer interface {
+	Sign(data []byte) ([]byte, error)
+}
+type Verifier interface {
+	Verify(signature, data []byte) error
+}
+
+// CheckSignNoWrite: Sign does not write into the data buffer, the signature is fresh
+// memory (not the data, not any internal slice); Verify writes neither into the signature
+// nor into the data buffer; overwriting the returned signature does not change what the
+// signer produces / the verifier accepts later. The signer must be deterministic
+// (Ed25519) if `deterministic` is set: then the second signature is compared.
+func CheckSignNoWrite(s Signer, v Verifier, maxData int, deterministic bool, internals ...[]byte) {
+	data := Buf("data", verifrt.Choice("n", maxData+1), "caller data buffer")
+	data0 := append([]byte{}, data...)
+	sig, err := s.Sign(data)
+	verifrt.Assert(err == nil, "Sign succeeds")
+	verifrt.CheckProtected()
+	verifrt.Assert(!verifrt.SameArray(sig, data), "signature shares no memory with the input")
+	for _, x := range internals {
+		verifrt.Assert(!verifrt.SameArray(sig, x), "signature shares no memory with key or primitive internals")
+	}
+	sbuf := make([]byte, len(sig), len(sig)+[...]int{0, 1, 17}[verifrt.Choice("sig.spare", 3)])
+	copy(sbuf, sig)
+	verifrt.Protect(sbuf, "caller signature buffer")
+	verifrt.Assert(v.Verify(sbuf, data) == nil, "Verify accepts the genuine signature")
+	verifrt.CheckProtected()
+	sig0 := append([]byte{}, sig...)
+	Unprotect(data)
+	verifrt.Unprotect(sbuf)
+	Scribble(data)
+	Scribble(sbuf)
+	Scribble(sig)
+	sig2, err := s.Sign(data0)
+	verifrt.Assert(err == nil, "second Sign succeeds")
+	if deterministic {
+		verifrt.AssertEq(sig2, sig0, "overwriting the data buffer and the returned signature does not change later signatures")
+	}
+	verifrt.Assert(v.Verify(sig0, data0) == nil, "the verifier still accepts the genuine signature after the caller reused its buffers")
+	verifrt.Reach("nowrite-ok")
+}
+
+// BufWith is Buf with the spare capacity chosen by the caller (harnesses with several
+// caller buffers pick one spare-capacity profile for all of them instead of the product).
+func BufWith(name string, n, spare int, label string) []byte {
+	b := verifrt.BytesCap(name, n, n+spare)
+	verifrt.Protect(b, label)
+	return b
+}
+
+// SpareProfile picks one of: no spare capacity, one byte, more than a cipher block.
+func SpareProfile(name string) int {
+	return [...]int{0, 1, 17}[verifrt.Choice(name, 3)]
+}
+
+// StreamingAEAD is tink.StreamingAEAD.
+type StreamingAEAD interface {
+	NewEncryptingWriter(w io.Writer, associatedData []byte) (io.WriteCloser, error)
+	NewDecryptingReader(r io.Reader, associatedData []byte) (io.Reader, error)
+}
+
+func splitPoints(l int) []int {
+	var out []int
+	for _, c := range []int{0, 1, l - 1, l} {
+		if c < 0 || c > l {
+			continue
+		}
+		dup := false
+		for _, o := range out {
+			dup = dup || o == c
+		}
+		if !dup {
+			out = append(out, c)
+		}
+	}
+	return out
+}
+
+// CheckStreamNoWrite decides for one streaming primitive, plaintext lengths `lens`:
+//   - NewEncryptingWriter / NewDecryptingReader do not write into the caller's associated
+//     data (nor its spare capacity) and do not retain it: the caller overwrites the slice
+//     right after the constructor returns, and the stream must still be the stream for the
+//     original associated data (round trip here; the caller compares the returned ciphertext
+//     with its reference stream);
+//   - Write(p) does not write into p (nor its spare capacity) and does not retain p: the
+//     caller overwrites p right after Write returns;
+//   - Read(p) returning n leaves p[n:len(p)] and the spare capacity of p as they were and
+//     does not retain p (the caller overwrites p between calls); the concatenated reads
+//     are the plaintext.
+// It returns (ciphertext, original associated data, original plaintext).
+func CheckStreamNoWrite(a StreamingAEAD, lens []int) (ct, aad0, pt0 []byte) {
+	spare := SpareProfile("spare")
+	aad := BufWith("aad", verifrt.Choice("aadn", 2), spare, "caller associated-data buffer (writer)")
+	aad0 = append([]byte{}, aad...)
+	var sink bytes.Buffer
+	w, err := a.NewEncryptingWriter(&sink, aad)
+	verifrt.Assert(err == nil, "NewEncryptingWriter succeeds")
+	Unprotect(aad)
+	Scribble(aad)
+
+	l := lens[verifrt.Choice("len", len(lens))]
+	sp := splitPoints(l)
+	c1 := sp[verifrt.Choice("c1", len(sp))]
+	p1 := BufWith("p1", c1, spare, "caller plaintext buffer (first Write)")
+	p2 := verifrt.BytesCap("p2", l-c1, l-c1+spare)
+	pt0 = append(append([]byte{}, p1...), p2...)
+	n1, e1 := w.Write(p1)
+	verifrt.Assert(e1 == nil && n1 == c1, "first Write consumes its input")
+	verifrt.CheckProtected()
+	verifrt.Unprotect(p1)
+	Scribble(p1)
+	verifrt.Protect(p2, "caller plaintext buffer (second Write)")
+	n2, e2 := w.Write(p2)
+	verifrt.Assert(e2 == nil && n2 == l-c1, "second Write consumes its input")
+	verifrt.CheckProtected()
+	verifrt.Unprotect(p2)
+	Scribble(p2)
+	verifrt.Assert(w.Close() == nil, "Close succeeds")
+	ct = append([]byte{}, sink.Bytes()...)
+
+	// decrypt with the ORIGINAL associated data, from a caller buffer that is reused as well
+	aadR := make([]byte, len(aad0), len(aad0)+spare)
+	copy(aadR, aad0)
+	verifrt.Protect(aadR, "caller associated-data buffer (reader)")
+	r, err := a.NewDecryptingReader(bytes.NewReader(ct), aadR)
+	verifrt.Assert(err == nil, "NewDecryptingReader accepts the header")
+	Unprotect(aadR)
+	Scribble(aadR)
+	bl := [...]int{1, 2, l + 1}[verifrt.Choice("rb", 3)]
+	fill := verifrt.Bytes("rbuf", bl+spare) // what the caller's read buffer holds before every call
+	full := make([]byte, bl+spare)
+	p := full[:bl:bl+spare]
+	var got []byte
+	for i := 0; ; i++ {
+		copy(full, fill)
+		n, err := r.Read(p)
+		verifrt.Assert(0 <= n && n <= len(p), "Read returns 0 <= n <= len(p)")
+		if n < 0 || n > len(p) {
+			return
+		}
+		verifrt.AssertEq(full[n:bl], fill[n:bl], "Read leaves p[n:len(p)] untouched")
+		verifrt.AssertEq(full[bl:], fill[bl:], "Read does not write into the spare capacity of p")
+		got = append(got, p[:n]...)
+		if err == io.EOF {
+			break
+		}
+		verifrt.Assert(err == nil, "reading succeeds up to io.EOF")
+		if err != nil || i > 2*l+8 {
+			verifrt.Assert(false, "the reader terminates")
+			return
+		}
+	}
+	verifrt.AssertEq(got, pt0, "decrypted stream == plaintext although the caller reused every buffer it had passed in")
+	verifrt.Reach("stream-nowrite-ok")
+	return
+}
+
+// ---------------------------------------------------------------------------------------
+// Key / parameters objects (C19): constructors clone, accessors return clones.
+
+// Accessor is a byte-returning accessor of a key or parameters object.
+type Accessor struct {
+	Name string
+	Get  func() []byte
+}
+
+// CheckAccessorsClone: every accessor returns memory that does not alias the object's
+// state: two calls return equal bytes in different arrays, and after the caller has
+// overwritten a returned slice (its whole capacity) the accessor still returns the
+// original bytes.
+func CheckAccessorsClone(acc ...Accessor) {
+	for _, a := range acc {
+		x, y := a.Get(), a.Get()
+		verifrt.AssertEq(x, y, a.Name+": two calls return the same bytes")
+		x0 := append([]byte{}, x...)
+		Scribble(x)
+		verifrt.AssertEq(a.Get(), x0, a.Name+": overwriting the returned slice does not change the object")
+		verifrt.Assert(!verifrt.SameArray(x, y), a.Name+": returns a fresh copy each time")
+	}
+}
+
+// CheckCtorClones: src is the slice the caller handed to a constructor (created with
+// Buf/BufWith, i.e. write-protected while the constructor ran); get reads the object's
+// copy back; internal, if not nil, is the object's internal slice (in-package harnesses).
+// The constructor did not write into src, does not keep src, and a caller that overwrites
+// src afterwards does not change the object.
+func CheckCtorClones(name string, src []byte, get func() []byte, internal []byte) {
+	verifrt.CheckProtected()
+	src0 := append([]byte{}, src...)
+	verifrt.AssertEq(get(), src0, name+": content preserved by the constructor")
+	Unprotect(src)
+	Scribble(src)
+	verifrt.AssertEq(get(), src0, name+": overwriting the caller's slice after construction does not change the object")
+	if internal != nil {
+		verifrt.Assert(!verifrt.SameArray(internal, src), name+": the object does not retain the caller's slice")
+	}
+}
+
+// CheckSymKeyObject is the key-object check for key types made of one secretdata.Bytes:
+// mk is the real constructor (with parameters and id fixed by the caller), get / prefix the
+// real accessors (prefix may be nil for key types without output prefix).
+//   (a) the key bytes travel caller slice -> secretdata.NewBytesFromData -> constructor:
+//       nothing writes into the caller's slice (nor its spare capacity) and a caller that
+//       overwrites it afterwards does not change the key;
+//   (b) KeyBytes().Data() and OutputPrefix() return fresh copies: overwriting them does not
+//       change the key;
+// and finally the key still Equal()s a key made from a private copy of the original bytes.
+func CheckSymKeyObject(size int, mk func(secretdata.Bytes) (key.Key, error), get func(key.Key) secretdata.Bytes, prefix func(key.Key) []byte, prefixLen int) {
+	tok := insecuresecretdataaccess.Token{}
+	kb := BufWith("key", size, SpareProfile("key.spare"), "caller key buffer")
+	kb0 := append([]byte{}, kb...)
+	k, err := mk(secretdata.NewBytesFromData(kb, tok))
+	verifrt.Assert(err == nil, "NewKey")
+	if err != nil {
+		return
+	}
+	CheckCtorClones("NewKey(keyBytes)", kb, func() []byte { return get(k).Data(tok) }, nil)
+	acc := []Accessor{{Name: "KeyBytes().Data", Get: func() []byte { return get(k).Data(tok) }}}
+	if prefix != nil {
+		verifrt.Assert(len(prefix(k)) == prefixLen, "output prefix length")
+		acc = append(acc, Accessor{Name: "OutputPrefix", Get: func() []byte { return prefix(k) }})
+	}
+	CheckAccessorsClone(acc...)
+	ref, err := mk(secretdata.NewBytesFromData(kb0, tok))
+	verifrt.Assert(err == nil && k.Equal(ref) && ref.Equal(k), "after all the caller's writes the key still equals a key made from the original bytes")
+	verifrt.Reach("keyobject-ok")
+}
+
+// PrefixLen is the output prefix length of prefix kind 0 TINK, 1 CRUNCHY, 2 LEGACY, 3 RAW.
+func PrefixLen(kind int) int {
+	if kind == 3 {
+		return 0
+	}
+	return 5
+}
+
+// CheckBytesAccessor: what an accessor hands out is a copy - scribbling over it changes
+// neither the object (the next call returns the original bytes) nor a slice handed out later.
+func CheckBytesAccessor(get func() []byte, what string) {
+	a := get()
+	if len(a) == 0 {
+		return
+	}
+	orig := append([]byte{}, a...)
+	for i := range a {
+		a[i] ^= 0xff
+	}
+	b := get()
+	verifrt.AssertEq(b, orig, what+": writing into a returned slice does not change the object")
+	verifrt.Assert(!verifrt.SameArray(a, b), what+": each call returns fresh memory")
+}
+
+// CheckBytesOwned: the object does not keep a reference to a caller-provided slice -
+// scribbling over the caller's slice after construction does not change what the object reports.
+func CheckBytesOwned(input []byte, get func() []byte, what string) {
+	if len(input) == 0 {
+		return
+	}
+	orig := append([]byte{}, input...)
+	for i := range input {
+		input[i] ^= 0xff
+	}
+	verifrt.AssertEq(get(), orig, what+": the object does not alias the caller's input slice")
 }
